@@ -117,6 +117,9 @@ class Interp:
         self.ghost = None  # per-path ghost state (event loop, trace), created by lib.asyncio
         self.path_hooks = []  # callables run at start of each path (reset per-path state)
         self.stack = []
+        from .engine import Engine, PathCtx
+
+        self.begin_path(PathCtx(Engine(), []))  # module load time: no symbolic values exist
 
     # ------------------------------------------------------------------ paths
     def begin_path(self, ctx):
